@@ -59,7 +59,7 @@ func buildTimeCodec(schema avro.Schema, typ reflect.Type, omit bool) (avro.Codec
 type DateCodec struct{ avro.Int32Codec }
 
 func (c DateCodec) Read(r *avro.ReadBuf, p unsafe.Pointer) error {
-	var l int64
+	var l int32
 	if err := c.Int32Codec.Read(r, unsafe.Pointer(&l)); err != nil {
 		return err
 	}
@@ -81,7 +81,14 @@ func (c DateCodec) Omit(p unsafe.Pointer) bool {
 func (c DateCodec) Write(w *avro.WriteBuf, p unsafe.Pointer) {
 	t := *(*time.Time)(p)
 	// TODO: wrangle this into Time.AppendFormat?
-	day := int32(t.Unix() / (60 * 60 * 24))
+	const secondsPerDay = 60 * 60 * 24
+	secs := t.Unix()
+	day := int32(secs / secondsPerDay)
+	if secs%secondsPerDay < 0 {
+		// integer division truncates towards zero, but a time before 1970 that
+		// is not at midnight belongs to the day before
+		day--
+	}
 
 	c.Int32Codec.Write(w, unsafe.Pointer(&day))
 }
